@@ -1,6 +1,7 @@
 package toxics
 
 import (
+	"math"
 	"math/rand"
 	"time"
 
@@ -33,14 +34,23 @@ func (t *SlicerToxic) chunk(start int, end int) []int {
 	// If the size is within the random varation, _or already
 	// less than the average size_, just return it.
 	// Otherwise split the chunk in about two, and recurse.
-	if (end-start)-t.AverageSize <= t.SizeVariation {
+	// A range of less than two bytes cannot be split, whatever the attributes are.
+	if end-start < 2 || (end-start)-t.AverageSize <= t.SizeVariation {
 		return []int{start, end}
 	}
 
 	mid := start + (end-start)/2
 
-	if t.SizeVariation > 0 {
+	if t.SizeVariation > 0 && t.SizeVariation <= math.MaxInt/2 {
 		mid += rand.Intn(t.SizeVariation*2) - t.SizeVariation // #nosec G404 -- was ignored before too
+	}
+
+	// Keep both halves non-empty (size_variation may exceed average_size): the
+	// recursion always makes progress and never returns an inverted range.
+	if mid <= start {
+		mid = start + 1
+	} else if mid >= end {
+		mid = end - 1
 	}
 	left := t.chunk(start, mid)
 	right := t.chunk(mid, end)
